@@ -164,18 +164,20 @@ namespace Givaro
     inline E& _axpy (E& r, const E& a, const E& b, const E& c, const E& p)
     {
         C tmp;
+        E ab; // r may be the same object as c
         RecInt::lmul(tmp, a, b);
-        RecInt::mod_n(r, tmp, p);
-        RecInt::add(r, c);
+        RecInt::mod_n(ab, tmp, p);
+        RecInt::add(r, ab, c);
         if (r >= p) RecInt::sub(r, p);
         return r;
     }
     template<typename E, typename C, SAME_RECINT>
     inline E& _axpy (E& r, const E& a, const E& b, const E& c, const E& p)
     {
-        RecInt::copy(r, c);
-        RecInt::addmul(r, a, b);
-        RecInt::mod_n(r, p);
+        E tmp; // r may be the same object as a or b
+        RecInt::copy(tmp, c);
+        RecInt::addmul(tmp, a, b);
+        RecInt::mod_n(r, tmp, p);
         return r;
     }
 
@@ -210,8 +212,9 @@ namespace Givaro
     inline typename MOD::Element& MOD::maxpy
     (Element& r, const Element& a, const Element& b, const Element& c) const
     {
-        _mul<Element, Compute_t>(r, a, b, _p);
-        sub(r, c, r);
+        Element ab; // r may be the same object as c
+        _mul<Element, Compute_t>(ab, a, b, _p);
+        sub(r, c, ab);
         return r;
     }
 
@@ -219,8 +222,9 @@ namespace Givaro
     inline typename MOD::Element&  MOD::axmy
     (Element& r, const Element& a, const Element& b, const Element& c) const
     {
-        _mul<Element, Compute_t>(r, a, b, _p);
-        subin(r, c);
+        Element ab; // r may be the same object as c
+        _mul<Element, Compute_t>(ab, a, b, _p);
+        sub(r, ab, c);
         return r;
     }
 
@@ -240,10 +244,11 @@ namespace Givaro
     template<typename E, typename C, SAME_RECINT>
     E& _maxpyin (E& r, const E& a, const E& b, const E& p)
     {
-        if (r == 0) RecInt::reset(r);
-        else RecInt::sub(r, p, r);
-        RecInt::addmul(r, a, b);
-        RecInt::mod_n(r, p);
+        E tmp; // r may be the same object as a or b
+        if (r == 0) RecInt::reset(tmp);
+        else RecInt::sub(tmp, p, r);
+        RecInt::addmul(tmp, a, b);
+        RecInt::mod_n(r, tmp, p);
         if (r == 0) RecInt::reset(r);
         else RecInt::sub(r, p, r);
         return r;
